@@ -1,6 +1,6 @@
 (* Correspondence runner for C03 (StepMania writing).  A case = an in-memory mapset and the text SMMapSet.write returned.
    corr: the implementation's text is a rendering of the writer model's token list (literals exactly, numbers by value),
-         for the pinned behaviour or with the proposed repairs of #SELECTABLE / empty-measure padding;
+         for the current variant only (a regression to an OLD behaviour is a divergence);
    spec: the reference interpreter sm_denote of the implementation's text gives back the mapset (header fields, charts,
          objects per kind and column, times exact or within the written grid);
    wf:   the mapset is in the theorem's domain. *)
@@ -123,8 +123,6 @@ Definition exact_regime (pls : list (option (list placed))) (s : smset) : bool :
       && forallb (fun pl : option (list placed) => match pl with Some ps => measure_lcm_ok ps | None => false end) pls
   end.
 
-Definition variants : list variant :=
-  [pinned; mkVar true false false; mkVar false true false; mkVar true true false].
 
 Definition check (c : c03case) : verdict :=
   match c with
@@ -132,10 +130,10 @@ Definition check (c : c03case) : verdict :=
       let txt := match out with Some (l, i) => Some (mk_text l i) | None => None end in
       let pls := map (chart_placed conf) (s_maps s) in     (* the writer model's row placement, computed once *)
       let wf := set_wf pls rated s in
-      {| corr_ok := first_true (fun v => match sm_write conf v s, txt with
+      {| corr_ok := (fun v => match sm_write conf v s, txt with
                                       | Some toks, Some t => match_toks tol toks t
                                       | None, None => true
-                                      | _, _ => false end) variants;
+                                      | _, _ => false end) current;
          spec_ok := if wf then match txt with
                                | Some t => match sm_denote t with
                                            | Some d => write_spec tol (exact_regime pls s) s d
